@@ -20,6 +20,7 @@ from __future__ import annotations
 import itertools
 
 import torch
+import torch.nn as nn
 
 from .. import rig
 from . import engine_check as EC
@@ -155,6 +156,63 @@ def case_oracle(case):
     return None
 
 
+def fresh_optimizer_oracle(seed):
+    """PROPERTY on the real objects, no model: a DP optimizer constructed for a module that was already trained with another one
+    (training in phases, a second make_private, a changed clipping norm) starts clean – what an earlier optimizer clipped and
+    accumulated but never released (an interrupted logical batch), or released and left behind, must not enter or block its first release.
+    Tokens: Linear(d, 1) without bias, loss = sum of outputs, one-hot inputs – a released gradient is the multiset of its tokens."""
+    import random as _r
+    from opacus import GradSampleModule
+    from opacus.optimizers import DPOptimizer, DPPerLayerOptimizer
+    rng = _r.Random(seed)
+    d = 12
+    per_layer = rng.random() < 0.4
+    scenario = rng.choice(["interrupted", "released-then-module-zero-grad", "released-then-nothing"])
+    A = [rng.randrange(d) for _ in range(rng.randint(1, 4))]
+    B = [rng.randrange(d) for _ in range(rng.randint(1, 4))]
+    info = {"failing_input": {"oracle": "fresh-optimizer", "seed": seed}, "scenario": scenario, "per_layer": per_layer, "A": A, "B": B}
+    with rig.default_dtype(torch.float64):
+        lin = nn.Linear(d, 1, bias=False)
+        gsm = GradSampleModule(lin, loss_reduction="sum")
+
+        def mk(clip):
+            cls = DPPerLayerOptimizer if per_layer else DPOptimizer
+            return cls(torch.optim.SGD(lin.parameters(), lr=0.0), noise_multiplier=0.0, max_grad_norm=([clip] if per_layer else clip), expected_batch_size=1, loss_reduction="sum")
+
+        def fb(tokens):
+            x = torch.zeros(len(tokens), d)
+            for r, t in enumerate(tokens):
+                x[r, t] = 1.0
+            gsm(x).sum().backward()
+
+        opt1 = mk(1e6)
+        fb(A)
+        if scenario == "interrupted":
+            opt1.signal_skip_step(True)
+            opt1.step()
+            opt1.zero_grad()
+        else:
+            opt1.step()
+            if scenario == "released-then-module-zero-grad":
+                gsm.zero_grad()
+            else:
+                opt1.zero_grad()
+        opt2 = mk(2e6)
+        try:
+            fb(B)
+            opt2.step()
+        except Exception as e:  # noqa: BLE001
+            return (f"C11:fresh-optimizer-blocked:{scenario}", f"a new {'DPPerLayerOptimizer' if per_layer else 'DPOptimizer'} on a module used before ({scenario}; earlier batch {A}): its first step on batch {B} raised {type(e).__name__}: {str(e)[:120]}", info)
+        got = lin.weight.grad.reshape(-1)
+        want = torch.zeros(d)
+        for t in B:
+            want[t] += 1.0
+        if not torch.equal(got, want):
+            return (f"C11:stale-accumulator-inherited:{scenario}", f"a new {'DPPerLayerOptimizer' if per_layer else 'DPOptimizer'} on a module used before ({scenario}): its first release on batch {B} is {got.tolist()}, "
+                    f"expected the tokens of {B} only (earlier optimizer's batch was {A})", info)
+    return None
+
+
 def detect_variant():
     cfg = ("ghost", True, False, 1.5, 2.0)
     ops = [("fwdbwd", 2), ("sig", 1), ("step",), ("step",)]
@@ -229,6 +287,13 @@ def run(ctx):
             ops_s = ops[:diff] if diff else ops
             ctx.mismatch("protocol-machine", {"cfg": cfg, "ops": ops_s, "full_ops": ops, "kw": kws.get((cfg, tuple(ops)), {})}, real[: diff + 1], model[: diff + 1], oracle=case_oracle,
                          note=f"first differing op index {diff}: {ops[diff-1] if diff else 'new'}")
+        # every run: a fresh DP optimizer on a module another one has used (real objects against the rule, no model)
+        for _ in range(ctx.n(24, 300)):
+            sd = ctx.rng.randrange(1 << 30)
+            ctx.count("search:fresh-optimizer-on-used-module")
+            res = fresh_optimizer_oracle(sd)
+            if res:
+                ctx.property_failure(res[0], res[1], res[2])
         # Lean witness replay (ghost_double_release_counterexample) on the real code
         if variant == "asCoded":
             res = oracle_lines(("ghost", True, False, 1.5, 2.0), [("fwdbwd", 2), ("sig", 1), ("step",), ("step",)], wreal)
@@ -238,7 +303,7 @@ def run(ctx):
 
 def replay(ctx, rp):
     c = rp.get("failing_input") or rp.get("case")
-    res = case_oracle(c)
+    res = fresh_optimizer_oracle(c["seed"]) if isinstance(c, dict) and c.get("oracle") == "fresh-optimizer" else case_oracle(c)
     if res:
         print("REPRODUCED:", res[0], res[1])
         ctx.violations.append(res[0])
